@@ -4,4 +4,4 @@ import supcheck
 
 
 def run(ctx):
-    supcheck.run(ctx, "C12", kinds="shutdown,deps,api", n_quick=140, n_thorough=1600)
+    supcheck.run(ctx, "C12", kinds="shutdown,deps,api,ordered", n_quick=160, n_thorough=1600)
